@@ -142,11 +142,14 @@ ERRORS = {"ErrA": ErrA, "ErrB": ErrB, "ValueError": ValueError}
 
 class ScriptGen:
     def __init__(self, tape, max_ops=8, max_phases=3, max_depth=2, persistent_p=True,
-                 unique_sites=False, force=()):
+                 unique_sites=False, force=(), forbid=(), cfg=None):
         self.tape = tape
         self.F = Features(tape)
         for name in force:
             setattr(self.F, name, True)
+        for name in forbid:
+            setattr(self.F, name, False)
+        self.cfg = cfg or {}
         self.unique_sites = unique_sites
         self.func_alias = {}
         self.site_n = 0
@@ -707,30 +710,38 @@ class ScriptGen:
         t = self.tape
         F = self.F
         sc = Script()
+        cfg = self.cfg
         with t.span("sizes"):
-            n_ph = 1 + (t.draw(self.max_phases, "nph") if F.phases else 0)
-            names = []
-            pool = list(PHASE_NAMES)
-            for _ in range(n_ph):
-                names.append(pool.pop(t.draw(len(pool), "phname")))
+            if "phase_names" in cfg:
+                names = list(cfg["phase_names"])
+                n_ph = len(names)
+            else:
+                n_ph = 1 + (t.draw(self.max_phases, "nph") if F.phases else 0)
+                names = []
+                pool = list(PHASE_NAMES)
+                for _ in range(n_ph):
+                    names.append(pool.pop(t.draw(len(pool), "phname")))
             self.phase_names = names
             sc.initial = names[0]
         with t.span("state"):
             # persistent variables available from set_up
             self.assignable = set()
             sc.state0 = {}
-            n_state = 1 + t.draw(3, "nstate")
-            for nme in STATE_NUM[:n_state]:
+            state_num = cfg.get("state_num", STATE_NUM)
+            state_int = cfg.get("state_int", STATE_INT)
+            state_arr = cfg.get("state_arr", STATE_ARR)
+            n_state = 1 + t.draw(len(state_num), "nstate")
+            for nme in state_num[:n_state]:
                 self.types[nme] = "float"
                 sc.state0[nme[7:]] = self.pick(FLT_CONSTS + [1, 2, 3], "sv")
                 self.assignable.add(nme)
             if t.chance(0.7, "sint"):
-                nme = self.pick(STATE_INT, "sin")
+                nme = self.pick(state_int, "sin")
                 self.types[nme] = "int"
                 sc.state0[nme[7:]] = t.draw(4, "siv")
                 self.assignable.add(nme)
             if F.arrays and t.chance(0.6, "sarr"):
-                nme = self.pick(STATE_ARR, "san")
+                nme = self.pick(state_arr, "san")
                 n = 2 + t.draw(3, "salen")
                 self.types[nme] = ("arr", n)
                 sc.state0[nme[7:]] = np.array([float(self.pick(FLT_CONSTS, "sae")) for _ in range(n)])
@@ -739,9 +750,14 @@ class ScriptGen:
             sc.dt0 = self.pick([1, 0.5, 0.25, 2], "dt0")
             self.types["<t>"] = "float"
             self.types["<dt>"] = "float"
-            self.assignable.add("<t>")
-            if t.chance(0.3, "dtassign"):
-                self.assignable.add("<dt>")
+            if not cfg.get("no_advance"):
+                self.assignable.add("<t>")
+                if t.chance(0.3, "dtassign"):
+                    self.assignable.add("<dt>")
+            # shared read-only persistent variables (name -> (type, value)), e.g. for fusion workloads
+            for nme, (ty, val) in sorted(cfg.get("shared_ro", {}).items()):
+                self.types[nme] = ty
+                sc.state0[nme[7:]] = val
         persistent_defined = set(n for n in self.types)
         # <p> variables: assigned unconditionally at the top of the initial phase
         p_init_ops = []
@@ -768,6 +784,8 @@ class ScriptGen:
                     for op in p_init_ops:
                         D.add(op[1])
                 nxt = names[t.draw(len(names), "next")] if t.chance(0.5, "nextrand") else names[(pi + 1) % len(names)]
+                if "next" in cfg:
+                    nxt = cfg["next"][name]
                 n_ops = 1 + t.draw(self.max_ops, "nops")
                 ops += self.gen_block(D, self.max_depth, n_ops, top=True)
                 if pi == 0 and self.unique_sites and not self.used_funcs:
@@ -775,7 +793,7 @@ class ScriptGen:
                     tgt = sorted(n for n in self.types if n.startswith("<state>") and self.types[n] == "float")[0]
                     ops.insert(t.draw(len(ops) + 1, "callpos"),
                                ("assign", tgt, None, Bin("+", self.ucall("<func>f", [Var(tgt)]), Const(2)), [], "o"))
-                if t.chance(0.8, "advance_t"):
+                if not cfg.get("no_advance") and t.chance(0.8, "advance_t"):
                     ops.append(("assign", "<t>", None, Bin("+", Var("<t>"), Var("<dt>")), [], self.mode()))
                 if pi == 0 and not any(op[0] == "yield" for op in ops) and t.chance(0.5, "finalyield"):
                     ops.append(("yield", Var("<state>" + sorted(sc.state0)[0]),
